@@ -876,6 +876,41 @@ theorem compare_unknown_id (blocks : List Block) (plain showProc : Bool) (store 
   · rw [lookup_none h]
     cases lookup bid store <;> rfl
 
+/-! ## several comparisons through one reporter object -/
+
+/-- **session_is_map**: whatever state the reporter object is in, a history of `_metrics_table` / `report` calls on it
+    produces, call by call, exactly what each call produces on a reporter of its own – nothing is carried from one
+    comparison to the next (the one attribute a call writes, `self.plain`, is overwritten before it is read). -/
+theorem session_is_map (blocks : List Block) (showProc : Bool) (s : RState) (calls : List Call) :
+    runSession blocks showProc s calls = calls.map (freshCall blocks showProc) := by
+  induction calls generalizing s with
+  | nil => rfl
+  | cons c cs ih =>
+    simp only [runSession, List.map_cons, ih]
+    cases c <;> rfl
+
+/-- hence, anywhere in a history, comparing a race with itself shows no difference … -/
+theorem session_self_compare (blocks : List Block) (showProc : Bool) (s : RState) (pre post : List Call) (plain : Bool)
+    (st : Stats) (hnd : ∀ k l, getList k st = some l → (l.map Entry.id).Nodup) (rows : List Row)
+    (h : (runSession blocks showProc s (pre ++ [Call.table plain st st] ++ post))[pre.length]? = some [.ok rows]) :
+    ∀ r ∈ rows, noDifference plain r := by
+  rw [session_is_map] at h
+  simp [freshCall, callStep, tableIn] at h
+  exact self_compare_neutral blocks plain showProc st hnd rows h
+
+/-- … and a comparison and its mirror image, however far apart in the history, are row-wise swapped
+    (for the comparison as implemented) -/
+theorem session_swap (showProc : Bool) (s : RState) (calls : List Call) (i j : Nat) (plain : Bool) (b c : Stats)
+    (rows rows' : List Row)
+    (hi : calls[i]? = some (Call.table plain b c)) (hj : calls[j]? = some (Call.table plain c b))
+    (h : (runSession CompareRows.blocks showProc s calls)[i]? = some [.ok rows])
+    (h' : (runSession CompareRows.blocks showProc s calls)[j]? = some [.ok rows']) :
+    ∀ r ∈ rows, ∃ r' ∈ rows', swapOf r r' := by
+  rw [session_is_map] at h h'
+  simp only [List.getElem?_map, hi, hj, Option.map_some, freshCall, callStep, tableIn, Option.some.injEq,
+    List.cons.injEq, and_true] at h h'
+  exact swap_table_generated plain showProc b c rows rows' h h'
+
 /-! ## non-vacuity: the hypotheses are satisfiable and the statements talk about real rows -/
 
 def gcCount : RowSpec := ⟨['k'], ['G', 'C'], .const [], false, .ident, false, false⟩
@@ -901,6 +936,9 @@ example : (Val.int 3221225472).exact ∧ (Val.int 3221225472).dbl := by
     rw [h2, h2]⟩
 /-- … and a store in which `n1` is a proper prefix of `n10` -/
 example : compareById [] true false [(['n', '1', '0'], ⟨⟨[], []⟩, [], []⟩)] ['n', '1'] ['n', '1', '0'] = .error .notFound := rfl
+/-- a history with a report in between: three calls, four tables -/
+example : ((runSession [] false ⟨true⟩ [.table true ⟨⟨[], []⟩, [], []⟩ ⟨⟨[], []⟩, [], []⟩, .report ⟨⟨[], []⟩, [], []⟩ ⟨⟨[], []⟩, [], []⟩,
+    .table false ⟨⟨[], []⟩, [], []⟩ ⟨⟨[], []⟩, [], []⟩]).map List.length) = [1, 2, 1] := rfl
 /-- exact ints exist (hypothesis of colour_follows_direction) -/
 example : (Val.int 7).exact ∧ (Val.flt ⟨true, 1 / 2⟩).exact := by
   constructor
